@@ -63,6 +63,43 @@ def dispatch (env : DEnv) (s : DState) (caller : SessKey) (req : Nat) (callee : 
   if env.full callee then syncError s callee invReq [] ErrNetworkFailure [.str "<text>"] []
   else { st := armTimer env s caller req v timeout, sends := [⟨callee, m⟩] }
 
+/-- a later chunk that arms a router-side timeout first cancels the timer armed by an earlier chunk
+    (dealer.go `if invk.timerCancel != nil { invk.timerCancel() }`) -/
+def preCancel (s : DState) (v : Invk) (timeout : Nat) : DState :=
+  if timeout > 0 then s.cancelTimer v.timer else s
+
+@[simp] theorem preCancel_d (s : DState) (v : Invk) (t : Nat) : (preCancel s v t).d = s.d := by
+  unfold preCancel; split <;> simp
+@[simp] theorem preCancel_nextTimer (s : DState) (v : Invk) (t : Nat) : (preCancel s v t).nextTimer = s.nextTimer := by
+  unfold preCancel; split <;> simp
+@[simp] theorem preCancel_invGen (s : DState) (v : Invk) (t : Nat) : (preCancel s v t).invGen = s.invGen := by
+  unfold preCancel; split <;> simp
+theorem preCancel_zero (s : DState) (v : Invk) : preCancel s v 0 = s := by
+  unfold preCancel; rw [if_neg (by omega)]
+theorem preCancel_pos (s : DState) (v : Invk) {t : Nat} (h : 0 < t) : preCancel s v t = s.cancelTimer v.timer := by
+  unfold preCancel; rw [if_pos h]
+
+theorem armTimer_preCancel (env : DEnv) (s : DState) (caller : SessKey) (req : Nat) (v : Invk) (t : Nat) :
+    armTimer env (preCancel s v t) caller req v t =
+      if t > 0 then
+        { s.cancelTimer v.timer with
+          timers := (s.cancelTimer v.timer).timers ++
+            [{ id := (s.cancelTimer v.timer).nextTimer + 1, deadline := env.now + min t maxTimeoutMs, caller := caller, req := req }]
+          nextTimer := (s.cancelTimer v.timer).nextTimer + 1
+          d := (s.cancelTimer v.timer).d.setInv { v with timer := some ((s.cancelTimer v.timer).nextTimer + 1) } }
+      else s := by
+  unfold armTimer preCancel
+  by_cases h : t > 0
+  · rw [if_pos h, if_pos h, if_pos h]
+  · rw [if_neg h, if_neg h, if_neg h]
+
+/-- `dispatch` for a later chunk of a progressive call invocation: the previous timer is cancelled before a new
+    one is armed -/
+def dispatchL (env : DEnv) (s : DState) (caller : SessKey) (req : Nat) (callee : SessKey) (invReq : Nat)
+    (v : Invk) (timeout : Nat) (m : Msg) : DOut :=
+  if env.full callee then syncError s callee invReq [] ErrNetworkFailure [.str "<text>"] []
+  else { st := armTimer env (preCancel s v timeout) caller req v timeout, sends := [⟨callee, m⟩] }
+
 def newInvk (s : DState) (reg : Reg) (caller : SessKey) (req : Nat) (callee : SessKey) (opts : Dict) : Invk :=
   { id := ⟨callee, (invGenNext s.invGen callee).1⟩, callId := ⟨caller, req⟩, callee := callee,
     inProgress := opts.optFlag OptProgress, options := opts, regId := reg.id, fwdTimeout := reg.fwdTimeout }
@@ -113,7 +150,7 @@ theorem firstChunk_eq (env : DEnv) (s : DState) (reg : Reg) (caller : SessKey) (
 def laterChunk (env : DEnv) (s : DState) (caller : SessKey) (req : Nat) (opts : Dict)
     (args : List WVal) (kw : Dict) (iid : ReqId) (v0 : Invk) : DOut :=
   let v : Invk := { v0 with inProgress := opts.optFlag OptProgress }
-  dispatch env { s with d := s.d.setInv v } caller req v.callee iid.req v (routerTimeoutF env v.fwdTimeout v.callee v.options)
+  dispatchL env { s with d := s.d.setInv v } caller req v.callee iid.req v (routerTimeoutF env v.fwdTimeout v.callee v.options)
     (.invocation iid.req v.regId [(OptProgress, .bool (opts.optFlag OptProgress))] args kw)
 
 /-- the caller uses progressive call invocations without having announced them: ABORT, session aborted -/
@@ -153,7 +190,10 @@ theorem syncCall_eq (env : DEnv) (s : DState) (caller : SessKey) (req : Nat) (op
       simp only []
       by_cases h2 : (opts.optFlag OptProgress && !hasFeat env caller RoleCaller FeatureProgCallInvocations) = true
       · rw [if_pos h2, if_pos h2]; rfl
-      · rw [if_neg h2, if_neg h2]; rfl
+      · rw [if_neg h2, if_neg h2]
+        unfold laterChunk dispatchL
+        simp only [armTimer_preCancel]
+        rfl
   | none =>
     simp only []
     cases s.d.matchProcedure proc with
